@@ -42,7 +42,11 @@ def main(argv=None):
             raise AnalysisError("no call sites parsed")
         if a.replay:
             return replay(mod, ctx, a.replay)
+        from .guards import soundness_guards, hidden_state_rule, property_roots
+        soundness_guards(ctx)
         mod.run(ctx)
+        roots, what = property_roots(ctx, prop)
+        hidden_state_rule(ctx, "R0.1", roots, what)
         if a.tier == "thorough" and os.environ.get("VERIF_SELFTEST", "1") != "0" and ctx.repo.root == "/repo":
             ctx.informational["selftest"] = run_selftest(prop)
         from .report import finish
